@@ -69,6 +69,11 @@ type opState struct {
 	opName    string
 	vars      map[string]any
 	echo      string // value of the operation's own $b variable, which its result must carry
+	// wire is the id on the wire. Ids only have to be unique among ACTIVE operations: a client
+	// may use the id of a terminated operation again.
+	wire    string
+	termSeq int64 // seq of the settled point that saw this operation terminated (0 = not yet)
+	reused  bool  // a later operation took over the wire id
 }
 
 type cframe struct {
@@ -348,6 +353,17 @@ func Run(rc *core.RunCtx) {
 	opsByID := map[string]*opState{}
 	var opOrder []string
 	nextID := 1
+	wireOps := map[string][]*opState{}
+	// opOf attributes a server frame to the operation that held its wire id when it was written
+	opOf := func(f simws.Frame) *opState {
+		var best *opState
+		for _, o := range wireOps[f.ID] {
+			if o.startSeq < f.Seq && (best == nil || o.startSeq > best.startSeq) {
+				best = o
+			}
+		}
+		return best
+	}
 	initSent := false
 	clientGone := false // client sent close/terminate or aborted
 	cancelled := false
@@ -430,7 +446,7 @@ func Run(rc *core.RunCtx) {
 			}
 			acts = append(acts, action{kind: "c-start"})
 			for _, id := range opOrder {
-				if o := opsByID[id]; !o.stopSent {
+				if o := opsByID[id]; !o.stopSent && !o.reused {
 					acts = append(acts, action{kind: "c-stop", op: o})
 				}
 			}
@@ -581,7 +597,22 @@ func Run(rc *core.RunCtx) {
 			events++
 			id := strconv.Itoa(nextID)
 			nextID++
-			o := &opState{id: id, startSeq: seq.Add(1), wantFrame: initSent}
+			o := &opState{id: id, startSeq: seq.Add(1), wantFrame: initSent, wire: id}
+			// now and then take the id of an operation that a settled point has seen terminated
+			// (and whose stop, if any, had been consumed by then)
+			var free []*opState
+			for _, oid := range opOrder {
+				if p := opsByID[oid]; p.termSeq > 0 && !p.reused && (!p.stopSent || p.stopSeq < p.termSeq) {
+					free = append(free, p)
+				}
+			}
+			if len(free) > 0 && t.Bool(1, 2, "reuse-id") {
+				p := free[t.Choose(len(free), "reuse-which")]
+				p.reused = true
+				o.wire = p.wire
+				w.Count("ids_reused")
+			}
+			wireOps[o.wire] = append(wireOps[o.wire], o)
 			var query string
 			var payloadExtra map[string]any
 			switch t.Choose(15, "opkind") {
@@ -641,13 +672,13 @@ func Run(rc *core.RunCtx) {
 			for k, v := range payloadExtra {
 				pl[k] = v
 			}
-			send("start "+id+" "+o.kind, map[string]any{"type": typeStart, "id": id, "payload": pl})
+			send("start "+id+" "+o.kind, map[string]any{"type": typeStart, "id": o.wire, "payload": pl})
 			evSig = append(evSig, "start:"+o.kind)
 		case "c-stop":
 			events++
 			a.op.stopSent = true
 			a.op.stopSeq = seq.Add(1)
-			send("stop "+a.op.id, map[string]any{"type": typeStop, "id": a.op.id})
+			send("stop "+a.op.id, map[string]any{"type": typeStop, "id": a.op.wire})
 			evSig = append(evSig, "stop")
 		case "c-misc":
 			events++
@@ -743,8 +774,8 @@ func Run(rc *core.RunCtx) {
 				settles++
 				per := map[string][]simws.Frame{}
 				for _, f := range conn.Frames() {
-					if f.ID != "" {
-						per[f.ID] = append(per[f.ID], f)
+					if o := opOf(f); f.ID != "" && o != nil {
+						per[o.id] = append(per[o.id], f)
 					}
 				}
 				mu.Lock()
@@ -758,6 +789,9 @@ func Run(rc *core.RunCtx) {
 						case "complete", "error":
 							term = true
 						}
+					}
+					if term && o.termSeq == 0 {
+						o.termSeq = seq.Add(1)
 					}
 					src := sources[id]
 					if o.isStream && src != nil && !src.pending {
@@ -864,7 +898,7 @@ func Run(rc *core.RunCtx) {
 			if f.Opcode != 1 || f.ID == "" || f.Type != dataType {
 				continue
 			}
-			o := opsByID[f.ID]
+			o := opOf(f)
 			if o == nil {
 				continue
 			}
@@ -954,8 +988,8 @@ func Run(rc *core.RunCtx) {
 			if f.Type == "connection_ack" {
 				ackSeen = true
 			}
-			if f.ID != "" {
-				perID[f.ID] = append(perID[f.ID], f)
+			if o := opOf(f); f.ID != "" && o != nil {
+				perID[o.id] = append(perID[o.id], f)
 			}
 			if (f.Type == "data" || f.Type == "next" || f.Type == "error" || f.Type == "complete") && !ackSeen {
 				rc.Fail("operation-frame-before-ack", f.Type, "%s\n%s", f.Type, desc())
